@@ -70,7 +70,7 @@ func genRejectCase(t *rapid.T) RejCase {
 		if n < 2 {
 			n = 2
 		}
-		cs.Seed2 =(cs.Seed + 1 + uint64(rapid.IntRange(0, n-2).Draw(t, "seed2"))) % uint64(n)
+		cs.Seed2 = (cs.Seed + 1 + uint64(rapid.IntRange(0, n-2).Draw(t, "seed2"))) % uint64(n)
 	case "cross-curve-decode", "cross-curve-round":
 		if cs.Mode == "cross-curve-decode" {
 			cs.Kind = pick(t, []string{"r1", "r2", "gs", "es"}, "kind")
